@@ -305,6 +305,8 @@ def run_impl_case(stream: Stream, case: dict):
     except BaseException as e:  # the runner itself must not die
         if isinstance(e, KeyboardInterrupt):
             raise
+        if os.environ.get("VERIF_DEBUG"):
+            traceback.print_exc()
         return [-999, 2, abs(hash(type(e).__name__)) % 1000]
     finally:
         signal.alarm(0)
